@@ -415,7 +415,7 @@ class BalancedMarket(Strategy):
 
             if avail_power > 0 and num_cheap_ts == 0 and battery.soc > 0:
                 # no surplus, no cheap price: support GC by discharging
-                bat_power = min(avail_power, gc.max_power + gc.get_current_load())
+                bat_power = min(avail_power, gc.cur_max_power + gc.get_current_load())
                 bat_power = battery.unload(self.interval, target_power=bat_power)['avg_power']
                 gc.add_load(bat_id, -bat_power)
                 discharging_stations.append(bat_id)
